@@ -315,8 +315,33 @@ func (w *world) close() {
 
 func (w *world) width() uint { return uint(63 - 12 - int(w.nb)) }
 
-// fieldsOf decodes with the package's own IDFields under the current configuration.
-func fieldsOf(id int64) (t, n, s int64) { return snowflake.IDFields(id) }
+// fieldsOf decodes an id with the monitor's own arithmetic under the configuration the package reports (never blocks,
+// never panics, does not read any clock — whatever the code under test does, the harness must survive it).
+func fieldsOf(id int64) (t, n, s int64) {
+	_, nb, nal := snowflake.VerifConfig()
+	if nb > 40 {
+		return 0, 0, 0
+	}
+	sh := uint(nb) + 12
+	t = id >> sh
+	if nal {
+		return t, id & (int64(1)<<nb - 1), (id >> nb) & 4095
+	}
+	return t, (id >> 12) & (int64(1)<<nb - 1), id & 4095
+}
+
+// pkgFields is the package's own IDFields, guarded: a panic or a result that differs from the plain decoding is a hit.
+func (w *world) pkgFields(id int64) {
+	defer func() {
+		if r := recover(); r != nil {
+			w.hit("IDFields", "panics", fmt.Sprintf("IDFields(%d) panicked: %v", id, r))
+		}
+	}()
+	t, n, s := fieldsOf(id)
+	if pt, pn, ps := snowflake.IDFields(id); id >= 0 && (pt != t || pn != n || ps != s) {
+		w.hit("IDFields", "decode-differs", fmt.Sprintf("IDFields(%d) = (%d,%d,%d) but the id's fields are (%d,%d,%d)", id, pt, pn, ps, t, n, s))
+	}
+}
 
 // checkHard: the property restated on one returned id (monitor; independent of the Lean model).
 // rel = clock reading in ms relative to the configured epoch.
@@ -347,6 +372,9 @@ func (w *world) checkHard(id, ms int64, site string) {
 		}
 	}
 	t, n, _ := fieldsOf(id)
+	if !w.skip && len(w.hits) < 6 {
+		w.pkgFields(id)
+	}
 	if w.skip || len(w.hits) >= 6 { // outside the property / enough reported for this script: bookkeeping only
 		if t > w.lastT {
 			w.lastT = t
@@ -502,6 +530,15 @@ func (w *world) run(line string) (out string) {
 	f := strings.Fields(line)
 	if len(f) == 0 {
 		return "bad-op"
+	}
+	if f[0] != "cfg" && f[0] != "setup" && w.ready {
+		// no call of the package's API other than Setup may change the configuration (observed through the hook)
+		defer func() {
+			if e, nb, nal := snowflake.VerifConfig(); e != w.epoch || nb != w.nb || nal != w.nal {
+				w.hit("package-state", "config-changed-by-api-call", fmt.Sprintf("op `%s` left the configuration (epoch %d, nodeBits %d, nodeAtLowest %v), it was (%d, %d, %v)", line, e, nb, nal, w.epoch, w.nb, w.nal))
+				snowflake.VerifSetConfig(w.epoch, w.nb, w.nal)
+			}
+		}()
 	}
 	if f[0] == "cfg" {
 		if len(f) != 4 {
@@ -1177,9 +1214,10 @@ func (w *world) hheld(f []string) string {
 			return "stuck"
 		}
 	}
+	// from here on the clock never blocks again (the monitors below may call into the package)
 	restore2 := snowflake.VerifSetNow(func() time.Time { return clockOf(msLast, 0) })
+	defer restore2()
 	last := n.Generate()
-	restore2()
 	// monitor: width hypothesis, then — ids returned after a later hand-over exceed those returned before; all distinct;
 	// node field; the later sequential call above everything
 	W := w.width()
